@@ -94,3 +94,37 @@ Definition c11bgzf_agree (c : c11bgzf) : bool :=
     (* the header CRC answer is not observable: either answer must explain the observation *)
     agree1 (bgzf_read_member true s) || agree1 (bgzf_read_member false s)
   end.
+
+(* --------------------------------------------------------------- Reader.Seek *)
+
+(** What Seek depends on of the current block: the base offset it was fetched
+    for and whether it holds decompressed data (block.buf != nil). A failed
+    fetch or inflate leaves the block re-based to the requested offset without
+    data (decompressor.nextBlockAt: setBase; block.readFrom: b.buf = nil). *)
+Record rstate := { cur_base : Z; cur_has : bool }.
+
+(** block.seek(offset): b.buf.Seek — a nil *bytes.Reader is dereferenced when the block has no data. *)
+Definition block_seek (st : rstate) (seek_ok : bool) : rstate * outcome unit :=
+  if cur_has st then (st, if seek_ok then Ok tt else Err 2) else (st, Panic 2).
+
+(** Reader.Seek(off): the guard is [c11_seek_guard], translated from the source.
+    [hit]: cacheSwap found the block (cached blocks hold data); [fetch_ok]:
+    nextBlockAt(off.File).wait() succeeded; [seek_ok]: off.Block is inside the data. *)
+Definition reader_seek (st : rstate) (off_file : Z) (hit fetch_ok seek_ok : bool) : rstate * outcome unit :=
+  if c11_seek_guard off_file (cur_base st) (cur_has st) then
+    if hit then block_seek {| cur_base := off_file; cur_has := true |} seek_ok
+    else if fetch_ok then block_seek {| cur_base := off_file; cur_has := true |} seek_ok
+    else ({| cur_base := off_file; cur_has := false |}, Err 1)
+  else block_seek st seek_ok.
+
+(** A history of Seek calls. *)
+Fixpoint seek_history (st : rstate) (h : list (Z * bool * bool * bool)) : outcome unit :=
+  match h with
+  | [] => Ok tt
+  | (off, hit, ok, sk) :: t =>
+    match reader_seek st off hit ok sk with
+    | (_, Panic w) => Panic w
+    | (_, Stuck) => Stuck
+    | (st', _) => seek_history st' t
+    end
+  end.
